@@ -514,8 +514,20 @@ def setters(w, S, R):
 
 
 def addressing_rules(ctx, w, S, R):
+    ctx_plain = ctx
     ctx = shared.Deferred(ctx, {"V9", "V10"}, cursor_verdict(ctx, w, S, R))
     E = w.E
+    # the semantic form covers the pure cursor commands only: functions that other commands (LF, print, HT, ...) reach too
+    # keep the shape rule
+    from rules import hinterp as _hi
+    pure = set()
+    for v in _hi.CURSOR_SPEC:
+        pure |= set(w.handler_reach(v))
+    other = set()
+    for v in w.anchors["function_variants"]:
+        if v not in _hi.CURSOR_SPEC:
+            other |= set(w.handler_reach(v))
+    covered = pure - other
     cur = R["cursor"]
     row_t, rows_t, cols_t = ("load", ("arg1", cur, "row")), ("load", ("arg1", R["rows"])), ("load", ("arg1", R["cols"]))
     top_fn, bottom_fn = origin_fns(w, S, R)
@@ -555,14 +567,15 @@ def addressing_rules(ctx, w, S, R):
             t = shared.norm_term(T.operand(cs.term["args"][1], cs.point))
             gs = [(shared.norm_term(c), v) for c, v in w.guards_of(f, cs.point[0])]
             n += 1
+            cx = ctx if f in covered else ctx_plain
             if cs.callee == rset:
                 ok = row_bounded(w, S, R, t, gs, top_fn, bottom_fn)
-                ctx.check(ok, "V10", "%s:%s" % (f, shared.site_key(w, f, cs.point)),
+                cx.check(ok, "V10", "%s:%s" % (f, shared.site_key(w, f, cs.point)),
                           "%s sets the cursor row to %s, which nothing bounds by the screen height (guards: %s): the cursor can leave the screen (row == rows) and the next print indexes out of range" %
                           (f, w.tstr(f, t), [(w.tstr(f, c)[:50], v) for c, v in gs]), loc=w.site_loc(cs), sample={"fn": f, "row": w.tstr(f, t)})
             else:
                 ok = col_bounded(w, S, R, t, gs)
-                ctx.check(ok, "V10", "%s:%s" % (f, shared.site_key(w, f, cs.point)),
+                cx.check(ok, "V10", "%s:%s" % (f, shared.site_key(w, f, cs.point)),
                           "%s sets the cursor column to %s, which nothing bounds by the screen width (guards: %s)" % (f, w.tstr(f, t), [(w.tstr(f, c)[:50], v) for c, v in gs]), loc=w.site_loc(cs),
                           sample={"fn": f, "col": w.tstr(f, t)})
     ctx.floor("V10", 15, "cursor setter call sites")
